@@ -105,6 +105,47 @@ def run(ctx):
     ok = v.key in (want1.key, T.mk_call('int', [want1]).key)
     ctx.ob('FORMULA', 'antenna i gets the i-th normalised delay', init, ok, {'value': pretty(v)}, node=ad[0].node)
 
+    REF_MA_INIT = """
+def __init__(self, num_antennas, sample_rate=3*u.GHz, fch1=0*u.GHz, ascending=True, num_pols=2, delays=None, t_start=0, seed=None, **kwargs):
+    self.rng = xp.random.default_rng(seed)
+    if delays is None:
+        self.delays = xp.zeros(num_antennas, dtype=int)
+    else:
+        assert len(delays) == num_antennas
+        self.delays = xp.array(delays).astype(int)
+    self.max_delay = int(xp.max(self.delays))
+    self.num_antennas = num_antennas
+    self.sample_rate = unit_utils.get_value(sample_rate, u.Hz)
+    self.dt = 1 / self.sample_rate
+    self.fch1 = unit_utils.get_value(fch1, u.Hz)
+    self.ascending = ascending
+    assert num_pols in [1, 2]
+    self.num_pols = num_pols
+    self.t_start = t_start
+    self.start_obs = True
+    self.antennas = []
+    for i in range(self.num_antennas):
+        antenna = Antenna(sample_rate=self.sample_rate, fch1=self.fch1, ascending=self.ascending, num_pols=self.num_pols,
+                          t_start=self.t_start, seed=int(self.rng.integers(2**31)))
+        antenna.delay = int(self.delays[i])
+        self.antennas.append(antenna)
+    self.bg_x = data_stream.BackgroundDataStream(sample_rate=self.sample_rate, fch1=self.fch1, ascending=self.ascending,
+                                                 t_start=self.t_start, seed=int(self.rng.integers(2**31)),
+                                                 antenna_streams=[antenna.x for antenna in self.antennas])
+    self.bg_streams = [self.bg_x]
+    if self.num_pols == 2:
+        self.bg_y = data_stream.BackgroundDataStream(sample_rate=self.sample_rate, fch1=self.fch1, ascending=self.ascending,
+                                                     t_start=self.t_start, seed=int(self.rng.integers(2**31)),
+                                                     antenna_streams=[antenna.y for antenna in self.antennas])
+        self.bg_streams.append(self.bg_y)
+"""
+    for case, a in (('given', {}), ('omitted', {'delays': NONE})):
+        if case == 'given':
+            T.NOTNONE.add('delays')
+        agree_ref(ctx, init, REF_MA_INIT, f'MultiAntennaArray.__init__[delays {case}]: antennas and background streams share rate, band, '
+                  'orientation and start time; background linked to every antenna\'s stream of the same polarisation',
+                  what=('calls',), expand=False, max_depth=0, args=a)
+        T.NOTNONE.discard('delays')
     # ---- D2/D3 the delayed background
     ctx.clause = 'D2'
     gs = ctx.func(MA + 'get_samples')
